@@ -629,19 +629,26 @@ pub fn c07(seed: u64, thorough: bool) -> Scenario {
         b.mute(0.1, (1.1, 1.6), 0.0, 2_000);
     }
     // Unresponsive first sync target: one peer's consensus port is mute towards the lagger.
+    let mut deaf_extra = 0u64;
     if b.r.chance(0.5) {
         let p = (lagger + 1 + b.r.below(b.sc.n - 1)) % b.sc.n;
         if b.r.chance(0.5) {
             let until = heal + b.r.range(b.t_us, 4 * b.t_us);
             b.sc.net.rules.push(Rule { t0_us: heal, t1_us: until, src: bit(lagger), dst: bit(p), bidir: true, svc_mask: 1 << SVC_CONSENSUS, kind: RuleKind::Stall, reply_only: false, label: "mute-sync-target".into() });
         } else {
-            // The peer never sees anything the lagger sends to its consensus port (requests, votes,
-            // timeouts are held for ever) while its own proposals still reach the lagger: sync
+            // The peer does not see anything the lagger sends to its consensus port (requests,
+            // votes, timeouts are held) while its own proposals still reach the lagger: sync
             // requests addressed to it stay unanswered and must be retried with the others.
-            b.sc.net.rules.push(Rule { t0_us: heal.saturating_sub(b.t_us), t1_us: FOREVER, src: bit(lagger), dst: bit(p), bidir: false, svc_mask: 1 << SVC_CONSENSUS, kind: RuleKind::Stall, reply_only: false, label: "deaf-sync-target".into() });
+            // Mostly for a few retry periods; sometimes for ever (known finding F3).
+            let retry = b.sc.params[0].sync_retry_delay * 1_000;
+            let t0 = heal.saturating_sub(b.t_us);
+            let t1 = if b.r.chance(0.85) { heal + b.r.range(retry + 6_000_000, 3 * (retry + 6_000_000)) } else { FOREVER };
+            b.sc.net.rules.push(Rule { t0_us: t0, t1_us: t1, src: bit(lagger), dst: bit(p), bidir: false, svc_mask: 1 << SVC_CONSENSUS, kind: RuleKind::Stall, reply_only: false, label: "deaf-sync-target".into() });
+            b.sc.bounds.deaf = Some((p, t0, t1));
+            deaf_extra = if t1 == FOREVER { 0 } else { (t1 - heal) + (t1 - heal) / 3 };
         }
     }
-    if b.r.chance(0.4) {
+    if b.sc.bounds.deaf.is_none() && b.r.chance(0.4) {
         b.clock_jumps(2);
     }
     let retry = b.sc.params[0].sync_retry_delay * 1_000;
@@ -650,7 +657,7 @@ pub fn c07(seed: u64, thorough: bool) -> Scenario {
     b.sc.bounds.lagger = Some(lagger);
     b.sc.bounds.heal_us = heal;
     b.sc.bounds.liveness_window_us = window;
-    b.sc.bounds.catchup_deadline_us = heal + reconnect + retry + 10_000_000 + window;
+    b.sc.bounds.catchup_deadline_us = heal + reconnect + retry + 10_000_000 + window + deaf_extra;
     b.sc.duration_us = b.sc.bounds.catchup_deadline_us;
     let dur = b.sc.duration_us;
     let txs = b.r.range(5, 40) as usize;
